@@ -502,8 +502,8 @@ def parseCellRef (sc : Scope) (m : Meta) (ys : List SExp) : R (Nat × Nat) :=
       | none => throw (.assert "definition not found by EDIF identifier")
   | [] => throw (.syntax "cellRef: expecting name")
 
-/-- `parse_viewRef` on the content; the instance without `cellRef` would reference the cell that
-    is being read (not modelled) -/
+/-- `parse_viewRef` on the content (as repaired, edif_viewref_requires_cellref.diff: a viewRef without
+    `cellRef` — it would name the cell being read — is rejected) -/
 def parseViewRef (sc : Scope) (m : Meta) (ys : List SExp) : R (Nat × Nat) :=
   match ys.tail with
   | [v, .list zs] => do
@@ -517,7 +517,7 @@ def parseViewRef (sc : Scope) (m : Meta) (ys : List SExp) : R (Nat × Nat) :=
         | some dv =>
           if lower dv == lower vid then pure r
           else throw (.syntax "non-existent view referenced")
-  | [_] => throw (.unsupported "viewRef without cellRef")
+  | [_] => throw (.syntax "expecting cellRef")
   | _ => throw (.syntax "viewRef")
 
 def instItem (m : Meta) (ys : List SExp) : R Meta :=
@@ -526,7 +526,8 @@ def instItem (m : Meta) (ys : List SExp) : R Meta :=
   else if headIs ys "userdata" then throw (.notImpl "userData")
   else throw (.syntax "instance: unexpected construct")
 
-/-- `parse_instance` on the content `instance …` -/
+/-- `parse_instance` on the content `instance …` (as repaired, edif_instance_requires_viewref.diff: an
+    instance without `(viewRef …)` | `(viewList …)` is rejected) -/
 def parseInstance (sc : Scope) (ys : List SExp) : R CInst := do
   let (m, rest) ← nameDef Meta.new ys.tail
   let (ref, rest) ← (match rest with
@@ -536,7 +537,7 @@ def parseInstance (sc : Scope) (ys : List SExp) : R CInst := do
         pure (some r, rest')
       else if headIs zs "viewlist" then throw (.notImpl "viewList")
       else throw (.syntax "expecting viewRef")
-    | _ => pure (none, rest) : R (Option (Nat × Nat) × List SExp))
+    | _ => throw (.syntax "expecting viewRef") : R (Option (Nat × Nat) × List SExp))
   let (m, rest) ← loopC instItem m rest
   endC "instance" rest
   pure { data := m.data, ref := ref }
